@@ -532,6 +532,15 @@ impl<'a> Sess<'a> {
             let d = mine.iter().zip(theirs.iter()).find(|(a, b)| a != b);
             self.w.fail("stored-rows-differ-from-line-table", format!("{}: {} rows stored, llvm-dwarfdump decodes {}; first difference {:x?}", self.prog, mine.len(), theirs.len(), d), json!({"prog": self.prog}));
         }
+        // the order the lookups rely on (Lean: RowsSorted, EndSeqFirstOnTies = what `storeRows` establishes): per unit the
+        // stored rows ascend by (address, !end_sequence) — an end_sequence row comes before the other rows of its address
+        self.w.evals += 1;
+        for u in &self.dump {
+            if let Some(w) = u.rows.windows(2).find(|w| (w[0].address, !w[0].end_sequence) > (w[1].address, !w[1].end_sequence)) {
+                self.w.fail("stored-rows-not-sorted-by-address-with-end-sequence-first", format!("{}: unit {}: row {:#x} (end_sequence {}) is stored before row {:#x} (end_sequence {})", self.prog, u.idx, w[0].address, w[0].end_sequence, w[1].address, w[1].end_sequence), json!({"prog": self.prog}));
+                break;
+            }
+        }
         let mut fm: BTreeMap<u64, Vec<(u64, u64)>> = BTreeMap::new();
         for u in &self.dump { for f in &u.functions { let mut r: Vec<(u64, u64)> = f.ranges.iter().copied().filter(|r| r.0 < r.1).collect(); r.sort_unstable(); if !r.is_empty() { fm.insert((u.offset.unwrap_or(0) + f.die_offset) as u64, r); } } }
         let mut ft: BTreeMap<u64, Vec<(u64, u64)>> = BTreeMap::new();
